@@ -392,7 +392,15 @@ func init() {
 			depth := k % 4
 			wrap := (k / 4) % 6
 			sameFile := (k/24)%2 == 0
-			files, entryFile, okLines, desc := c19RenderCase(ctx.Rng, depth, wrap, ctx.Rng.Intn(12), ctx.Rng.Intn(30), sameFile)
+			padE, padC := ctx.Rng.Intn(12), ctx.Rng.Intn(30)
+			if k%7 == 3 {
+				// long files: the failing command lies hundreds or thousands of lines down (around the sizes a table of
+				// line starts might be cut into)
+				sizes := []int{230, 245, 250, 251, 255, 256, 500, 505, 510, 765, 1020, 4090, 65530}
+				padE, padC = sizes[ctx.Rng.Intn(len(sizes))]+ctx.Rng.Intn(8), sizes[ctx.Rng.Intn(len(sizes))]+ctx.Rng.Intn(8)
+				ctx.Cell("long-files")
+			}
+			files, entryFile, okLines, desc := c19RenderCase(ctx.Rng, depth, wrap, padE, padC, sameFile)
 			if ctx.Rng.Intn(3) == 0 {
 				// the same files saved with Windows line endings: the lines are the same lines
 				for j := range files {
